@@ -260,6 +260,31 @@ template <unsigned N, unsigned DEL> static void n48_remove() {
   free_aligned(n);
   WITNESS();
 }
+// the call under test kept in its own function so that the free-slot search loop can get its own (tight, checked) unwinding bound
+static __attribute__((noinline)) void do_add48(N48* n, db_t::leaf_type* leaf_raw, std::uint8_t cnt) {
+  n->add_to_nonfull(typename N48::db_leaf_unique_ptr{leaf_raw, unodb::detail::basic_db_leaf_deleter<db_t>{the_db}}, tree_depth<basic_art_key<std::uint64_t>>{7}, cnt);
+}
+// free-slot search in isolation: concrete key bytes (3i+1), symbolic hole positions over all 48 slots, nearly full node
+template <unsigned N> static void n48_addslot() {
+  std::uint8_t b[N], s[N];
+  for (unsigned i = 0; i < N; i++) b[i] = static_cast<std::uint8_t>(3 * i + 1);
+  N48* n = make_48<N>(b, s);
+  const std::uint8_t k = static_cast<std::uint8_t>(3 * in_range(0, 80) + 2);   // absent by construction
+  auto leaf = real_leaf(static_cast<std::uint64_t>(k));
+  const std::uint64_t leafword = reinterpret_cast<std::uint64_t>(leaf.get());
+  do_add48(n, leaf.release(), static_cast<std::uint8_t>(N));
+  const std::uint8_t ns = n->child_indexes[k].load();
+  PROP(ns < 48, "C01: the new key byte is mapped to a slot inside the node");
+  for (unsigned i = 0; i < N; i++) PROP(ns != s[i], "C01: the new child goes to a free slot (no existing child is overwritten)");
+  if (ns < 48) PROP(slotword(n->children.pointer_array[ns]) == leafword, "C01: the slot of the new key byte holds the new child");
+  for (unsigned i = 0; i < N; i++) PROP(n->child_indexes[b[i]].load() == s[i] && slotword(n->children.pointer_array[s[i]]) == word(opaque(i)), "C01: add_to_nonfull keeps every child attached to its key byte");
+  PROP(n->children_count == N + 1, "C01: add_to_nonfull increments the child count");
+  OBSERVE(ns);
+  free_aligned(reinterpret_cast<void*>(leafword)); free_aligned(n);
+  WITNESS();
+}
+HARNESS(n48_addslot_46) { n48_addslot<46>(); }
+HARNESS(n48_addslot_33) { n48_addslot<33>(); }
 #ifndef N48N
 #define N48N 17
 #endif
@@ -342,3 +367,41 @@ HARNESS(n256_add_remove) {
   free_aligned(n);
   WITNESS();
 }
+
+// ================================================================ I48 / I256 enumeration with a CONCRETE probe byte from the boundary classes
+// (0x00, 0x01, 0x7F, 0x80, 0x81, 0xFE, 0xFF) and fully symbolic node content (presence bitmap).  I48 states here are the hole-free ones
+// (slot = rank of the key byte); states with holes are covered by n48_find/add/rem above.
+static N48* make_48_bitmap(std::uint64_t (&m)[4], unsigned& cnt) {
+  for (auto& w : m) w = in_u64();
+  N48* n = raw_node<N48>();
+  std::uint8_t c = 0;
+  for (unsigned i = 0; i < 256; i++) { if (bit(m, i)) { n->child_indexes[i] = c; c++; } else n->child_indexes[i] = N48::empty_child; }
+  cnt = c;
+  ASSUME(cnt >= 1 && cnt <= 48);
+  for (unsigned t = 0; t < 48; t++) n->children.pointer_array[t] = t < cnt ? opaque(t) : np{nullptr};
+  n->children_count = static_cast<std::uint8_t>(cnt);
+  return n;
+}
+template <class ND, unsigned K> static void enum_k() {
+  std::uint64_t m[4]; unsigned cnt; ND* n;
+  if constexpr (std::is_same_v<ND, N48>) n = make_48_bitmap(m, cnt); else n = make_256(m, cnt);
+  constexpr std::uint8_t k = static_cast<std::uint8_t>(K);
+  const std::uint8_t w = in_u8();    // universally quantified witness byte
+  auto fr = n->find_child(static_cast<std::byte>(k));
+  PROP((fr.second != nullptr) == bit(m, k), "C01: find_child finds a child iff the key byte is present in the node");
+  auto nx = n->next(k); auto pr = n->prior(k);
+  if (nx.has_value()) { const unsigned r = static_cast<unsigned>(nx->key_byte); PROP(r > k && bit(m, r) && nx->child_index == r && !(w > k && w < r && bit(m, w)), "C02: next() is the successor in key-byte order"); }
+  else PROP(!(w > k && bit(m, w)), "C02: next() ends exactly after the last child");
+  if (pr.has_value()) { const unsigned r = static_cast<unsigned>(pr->key_byte); PROP(r < k && bit(m, r) && pr->child_index == r && !(w < k && w > r && bit(m, w)), "C02: prior() is the predecessor in key-byte order"); }
+  else PROP(!(w < k && bit(m, w)), "C02: prior() ends exactly before the first child");
+  auto ge = n->gte_key_byte(static_cast<std::byte>(k)); auto le = n->lte_key_byte(static_cast<std::byte>(k));
+  if (ge.has_value()) { const unsigned r = static_cast<unsigned>(ge->key_byte); PROP(r >= k && bit(m, r) && ge->child_index == r && !(w >= k && w < r && bit(m, w)), "C02: gte_key_byte is the ceiling of the probe"); }
+  else PROP(!(w >= k && bit(m, w)), "C02: gte_key_byte finds an entry iff some key byte >= the probe");
+  if (le.has_value()) { const unsigned r = static_cast<unsigned>(le->key_byte); PROP(r <= k && bit(m, r) && le->child_index == r && !(w <= k && w > r && bit(m, w)), "C02: lte_key_byte is the floor of the probe"); }
+  else PROP(!(w <= k && bit(m, w)), "C02: lte_key_byte finds an entry iff some key byte <= the probe");
+  OBSERVE(nx.has_value()); OBSERVE(pr.has_value()); OBSERVE(ge.has_value()); OBSERVE(le.has_value());
+  free_aligned(n);
+  WITNESS();
+}
+#define EK(K) HARNESS(n48_enum_##K) { enum_k<N48, 0x##K>(); } HARNESS(n256_enum_##K) { enum_k<N256, 0x##K>(); }
+EK(00) EK(01) EK(7F) EK(80) EK(81) EK(FE) EK(FF)
